@@ -306,3 +306,100 @@ func runC04(outDir string, seed int64, tier string) {
 	}, 1000, 8000,
 		"random programs as for C03 plus catch/3 and throw/1 at any nesting with balls that do or do not unify with the catchers and share variables with the goal, built-in errors (type, instantiation, evaluation), throws after a catch/3 goal has exited and after backtracking into it; answers and the final error term compared; distinct by program+query text; non-trivial = at least one answer or an error")
 }
+
+func runC11(outDir string, seed int64, tier string) {
+	f := feat{findall: true, bag: true, neg: true, callN: true, nestedOr: true, topOr: true, arith: true}
+	runProgProperty("C11", outDir, seed, tier, func(r *rng, i int) *progCase {
+		pc := &progCase{prog: genProgram(r, f)}
+		// half of the queries are an all-solutions call over a generated goal, so that the
+		// collected lists and the witness bindings are the observed answers
+		if r.coin(0.6) {
+			p := &pgen{r: r, f: f, nvars: 3}
+			for i := 0; i < 5; i++ {
+				p.preds = append(p.preds, predSig{fmt.Sprintf("p%d", i), 0})
+			}
+			p.preds = nil
+			for _, c := range pc.prog.clauses {
+				h := c
+				if c.K == 'c' && c.S == ":-" {
+					h = c.Args[0]
+				}
+				seen := false
+				for _, s := range p.preds {
+					if s.name == h.S && s.arity == len(h.Args) {
+						seen = true
+					}
+				}
+				if !seen {
+					p.preds = append(p.preds, predSig{h.S, len(h.Args)})
+				}
+			}
+			if r.coin(0.25) {
+				// facts whose free-variable witnesses are variants of each other in only one direction
+				var facts []*G
+				n := 3 + r.intn(4)
+				for i := 0; i < n; i++ {
+					var a, b *G
+					switch r.intn(5) {
+					case 0:
+						a, b = gv(0), gv(0)
+					case 1:
+						a, b = gv(0), gv(1)
+					case 2:
+						a, b = gc("f", gv(0), gv(0)), gv(1)
+					case 3:
+						a, b = gc("f", gv(0), gv(1)), gv(0)
+					default:
+						a, b = ga(genAtoms[r.intn(3)]), ga(genAtoms[r.intn(3)])
+					}
+					facts = append(facts, renumber(gc("w", gi(int64(i+1)), a, b)))
+				}
+				pc.prog.clauses = append(pc.prog.clauses, facts...)
+				tmpl := []*G{gv(0), gc("-", gv(0), gv(1)), gc("-", gv(0), gv(2))}[r.intn(3)]
+				goal := gc("w", gv(0), gv(1), gv(2))
+				if r.coin(0.3) {
+					goal = gc("^", gv(1+r.intn(2)), goal)
+				}
+				which := []string{"bagof", "setof"}[r.intn(2)]
+				if which == "setof" {
+					tmpl = gv(0)
+				}
+				pc.prog.query = gc(which, tmpl, goal, gv(3))
+				return pc
+			}
+			which := []string{"findall", "bagof", "setof"}[r.intn(3)]
+			goal := p.conj(1, 0, false)
+			if r.coin(0.5) {
+				goal = gc(",", gc("member", gv(1), p.smallList()), gc("member", gv(0), glist([]*G{gv(1), gc("f", gv(1)), gv(2), ga("a")}, nil)))
+				if r.coin(0.5) {
+					// witnesses that are variants of each other, with repeated variables
+					goal = gc("member", gc("-", gv(0), gv(1)), glist([]*G{gc("-", gi(1), gc("f", gv(3), gv(3))), gc("-", gi(2), gc("f", gv(4), gv(5))), gc("-", gi(3), gc("f", gv(6), gv(6))), gc("-", gi(4), gc("f", gv(7), gv(8)))}, nil))
+				}
+			}
+			if which != "findall" && r.coin(0.4) {
+				goal = gc("^", gv(r.intn(3)), goal)
+			}
+			inst := gv(2)
+			if r.coin(0.15) {
+				inst = glist([]*G{gv(2)}, gv(3))
+			}
+			tmpl := p.term(1)
+			if which == "setof" {
+				// ground template instances (see the generator of setof goals)
+				tmpl = gv(0)
+				goal2 := goal
+				for goal2.K == 'c' && goal2.S == "^" {
+					goal2 = goal2.Args[1]
+				}
+				wrapped := gc(",", gc("member", gv(0), p.smallList()), goal2)
+				if goal.K == 'c' && goal.S == "^" {
+					wrapped = gc("^", goal.Args[0], wrapped)
+				}
+				goal = wrapped
+			}
+			pc.prog.query = gc(which, tmpl, goal, inst)
+		}
+		return pc
+	}, 1000, 8000,
+		"random programs as for C01 with findall/3, bagof/3, setof/3 in bodies and as queries: templates sharing any subset of variables with the goal, ^-quantified variables, witnesses that are ground, partial or variants of each other (with repeated variables), nested all-solutions calls, instance arguments unbound or partial lists; compared as answer sequences (group order as produced); distinct by program+query text; non-trivial = at least one answer or an error")
+}
